@@ -70,7 +70,10 @@ impl StyleSheetOutput {
                     | TokenSerializationType::DelimHash
                     | TokenSerializationType::DelimAt
             );
+        // likewise `<` directly followed by `!` could start a `<!--`
+        let cdo_needs_separator = matches!(&*token, Token::Delim('!')) && self.s.ends_with('<');
         if cdc_needs_separator
+            || cdo_needs_separator
             || self
                 .prev_ser_type
                 .needs_separator_when_before(next_ser_type)
